@@ -34,8 +34,9 @@ impl TryFrom<String> for BuildpackVersion {
         match value
             .split('.')
             .map(|s| {
-                // The spec forbids redundant leading zeros.
-                if s.starts_with('0') && s != "0" {
+                // The spec forbids redundant leading zeros. Integer parsing also accepts an explicit
+                // `+` sign, which is not part of a buildpack version either.
+                if (s.starts_with('0') && s != "0") || s.starts_with('+') {
                     None
                 } else {
                     s.parse().ok()
